@@ -2180,3 +2180,41 @@ def dial_params():
         b.adv(1)
         out.append(b.tag("pace", "dialp").build())
     return out
+
+
+def fsm_points():
+    """C01/C09/C10: an FSM goroutine is held right after the PM approved its k-th transition (schedule point
+    inside corebgp, hook verifFSMHook), while a stop request or a remote event lands; then it goes on."""
+    out = []
+    # (direction, k, state entered, what triggers that approval)
+    pts = [("out", 3, "openSent", "dial"), ("out", 4, "openConfirm", "open"), ("out", 5, "established", "ka"),
+           ("in", 1, "active", "connect"), ("in", 2, "openSent", "connect"), ("in", 3, "openConfirm", "open"), ("in", 4, "established", "ka")]
+    for d, k, st, trig in pts:
+        for what in ("deletePeer", "close", "rclose", "rreset", "cease", "upd"):
+            g = "ent-%s" % d
+            b = Sb("fsmpt-%s-%s-%s" % (d, st, what), [peer(gates=["%s#%d" % (g, k)], passive=(d == "in"))])
+            b.start()
+            c = b.newconn()
+            first = step("dialAccept", peer="p1", conn=c) if d == "out" else step("connect", conn=c, src="10.0.0.2:40000", dst="10.0.0.1:179")
+            subs = []
+            if trig in ("dial", "connect"):
+                subs.append(first)
+            else:
+                b.steps.append(first)
+                if trig == "ka":
+                    b.open(c)
+                subs.append(step("send", conn=c, b=open_msg(65002, 90, ip4("10.0.0.2")) if trig == "open" else keepalive()))
+            subs.append(step("yield"))
+            if what in ("deletePeer", "close"):
+                subs.append(step(what, peer="p1" if what == "deletePeer" else ""))
+            elif what in ("rclose", "rreset"):
+                subs.append(step(what, conn=c))
+            elif what == "cease":
+                subs.append(step("send", conn=c, b=notification(6, 0)))
+            else:
+                subs.append(step("send", conn=c, b=update([1, 2, 3, 4])))
+            subs += [step("yield"), step("release", peer="p1", call=g, w=k)]
+            b.steps.append(multi(*subs))
+            b.adv(1).adv(70)
+            out.append(b.tag("fsmpt", "stop" if what in ("deletePeer", "close") else "cell").build())
+    return out
